@@ -23,9 +23,9 @@ def make_cases(tier, rng):
         # a host that is itself a plugin carries every variable; and the clean host
         add(cfg, all_on)
         add(cfg, all_off)
-        n = 4 if tier == "quick" else 40
+        n = 4 if tier == "quick" else 800
         if not cfg["runner"]:
-            n = 1 if tier == "quick" else 6      # command launches wait for the start timeout
+            n = 1 if tier == "quick" else 20     # command launches wait for the start timeout
         for _ in range(n):
             add(cfg, {v: rng.random() < 0.5 for v in VARS})
     return cases
